@@ -25,14 +25,16 @@ func (s *Selector) SelectTargetsForBuild(
 	graph *dag.DirectedTargetGraph,
 ) (int, int, error) {
 
-	platformSkipped := 0
+	// Targets that match the filters, directly or through an alias, but not the platform.
+	platformSkipped := make(map[label.TargetLabel]bool)
 	// Nodes that have been selected (and platform-checked) together with all of their ancestors.
 	visited := make(map[label.TargetLabel]bool)
 	for _, node := range graph.GetNodes() {
 		// Match pattern and test flag
-		if s.nodeMatchesFilters(node) {
-			if !nodeMatchesPlatform(node) {
-				platformSkipped += 1
+		if s.nodeMatchesFilters(graph, node) {
+			// An alias is skipped on the platforms on which its target is skipped
+			if actual := standsFor(graph, node); !nodeMatchesPlatform(actual) {
+				platformSkipped[actual.GetLabel()] = true
 				continue // Skip targets that don't match the platform
 			}
 
@@ -55,7 +57,7 @@ func (s *Selector) SelectTargetsForBuild(
 		}
 	}
 
-	return selectedCount, platformSkipped, nil
+	return selectedCount, len(platformSkipped), nil
 }
 
 // selectAllAncestorsForBuild recursively selects all ancestors of the given node.
